@@ -421,11 +421,33 @@ fn histories_backend<B: Backend>(opts: &Opts, rep: &mut Report) {
         for step in 0..steps {
             let what: &'static str = *rng.pick(&[
                 "decrypt-forged", "verify-forged", "decrypt-garbage", "verify-truncated", "unwrap-corrupt-pie", "unwrap-wrong-kind", "unseal-corrupt", "pw-unwrap-wrong-password", "parse-wrong-kind-as-key",
+                "pw-unwrap-refused-params", "pw-unwrap-refused-params", "pw-wrap-unwrap",
                 "decrypt-valid", "verify-valid", "encrypt", "sign", "wrap", "decrypt-wrong-aad",
             ]);
             history.push(what);
             let i = rng.below(16);
-            let r = guard(|| match what {
+            let step_fn = || guard(|| match what {
+                "pw-unwrap-refused-params" => {
+                    // cost parameters the KDF refuses (zero lanes / passes / iterations, too little or absurdly much memory)
+                    let bad: Vec<u8> = if B::VER % 2 == 1 {
+                        0u32.to_be_bytes().to_vec()
+                    } else {
+                        let (mem, time, para): (u64, u32, u32) = [(8192, 1, 0), (8192, 0, 1), (1024, 1, 1), (8192, 1, 64), (1 << 50, 1, 1)][i % 5];
+                        pw_param_bytes(B::VER, time, mem, para)
+                    };
+                    let (sl, nl, tl) = if B::VER % 2 == 1 { (32, 16, 48) } else { (16, 24, 32) };
+                    let mut blob = vec![7u8; sl];
+                    blob.extend_from_slice(&bad);
+                    blob.extend(std::iter::repeat_n(9u8, nl + 32 + tl));
+                    let text = format!("k{}.local-pw.{}", B::VER, crate::b64::encode(&blob));
+                    let r = pw_unwrap_local::<B>(&text, b"pw");
+                    // k1/k3 with zero iterations: RustCrypto computes a (meaningless) key and fails on the tag
+                    r.is_err()
+                }
+                "pw-wrap-unwrap" => {
+                    let s = fixed.secrets.clone();
+                    wrap::<B>(Wk::PwLocal, &key_bytes(k_local), &s).and_then(|b| unwrap::<B>(Wk::PwLocal, &b, &s)).map(|k| k == key_bytes(k_local)).unwrap_or(false)
+                }
                 "decrypt-forged" => kl.open(&fixed.forged_local[i], b"").is_err(),
                 "verify-forged" => kp.open(&fixed.forged_public[i], b"").is_err(),
                 "decrypt-garbage" => kl.open(&format!("{}{}", kl.header(), crate::b64::encode(&Rng(i as u64).bytes(i * 9))), b"").is_err(),
@@ -461,6 +483,9 @@ fn histories_backend<B: Backend>(opts: &Opts, rep: &mut Report) {
                 "decrypt-wrong-aad" => kl.open(&fixed.valid_local[i], b"unexpected assertion").is_err(),
                 _ => unreachable!(),
             });
+            // bounded progress: each of these operations takes milliseconds (RSA: tens of ms); 120 s is
+            // four to five orders of magnitude of slack, also under valgrind
+            let r = with_deadline(opts, 120, &format!("C17|{}|operation-does-not-return-after-failure-history", B::NAME), json!({"history": history}), step_fn);
             if !matches!(r, Ok(true)) {
                 rep.violation(&format!("C17|{}|history-step-unexpected-result:{what}", B::NAME), json!({"history": history, "step": step, "result": format!("{r:?}")}));
             }
